@@ -308,7 +308,7 @@ def capture_closure(ex, key, spec):
     return fv, st, first_args
 
 
-def verify_function(ex, key, timeout_ms=10000, extra_pre=(), only=None):
+def verify_function(ex, key, timeout_ms=10000, extra_pre=(), only=None, pin_len=None):
     """execute the real body of `key` under its contract -> FnReport.  `only`: indices (positions in the result list)
     of the obligations to decide; the others are marked `skipped` (used by the per-obligation retry)"""
     rep = FnReport(key)
@@ -324,6 +324,15 @@ def verify_function(ex, key, timeout_ms=10000, extra_pre=(), only=None):
         if ex.repo.outer_key(key) is not None:
             closure_fv, closure_st, outer_args = capture_closure(ex, key, spec)
         args, fn, modpath, cls = make_args(ex, key, spec)
+        ex.pinned = {}
+        if pin_len is not None:
+            # bounded stand-in (never counted as proved): every sequence argument has exactly pin_len elements, so loops
+            # and folds over it unroll and need no invariant
+            extra_pre = list(extra_pre)
+            for v_ in args.values():
+                if isinstance(v_, Sym) and isinstance(v_.ty, SeqTy):
+                    ex.pinned[v_.e.get_id()] = pin_len
+                    extra_pre.append(z3.Length(v_.e) == pin_len)
         if outer_args is not None:
             args_ns = dict(args)
             args_ns["outer"] = NS(outer_args)
